@@ -7,7 +7,6 @@ import (
 	g "github.com/zenon-network/go-zenon/chain/genesis/mock"
 	"github.com/zenon-network/go-zenon/chain/nom"
 	"github.com/zenon-network/go-zenon/common/types"
-	"github.com/zenon-network/go-zenon/vm/constants"
 	"github.com/zenon-network/go-zenon/vm/embedded/definition"
 
 	"verifmc/internal/vnode"
@@ -44,7 +43,6 @@ type staleEnv struct {
 
 func newStaleEnv(c *xs.Ctx, qsr int64, before int) *staleEnv {
 	ownGlobals()
-	constants.FuseExpiration = 2
 	n := vnode.New(vnode.Options{Dir: c.TempDir()})
 	e := &env{c: c, n: n, cfg: acctCfg{Name: fmt.Sprintf("stale-F%d", qsr), QSR: qsr}, kp: testUser(), addr: testUser().Address, chainID: n.Chain.ChainIdentifier()}
 	fuse, err := n.Submit(&nom.AccountBlock{BlockType: nom.BlockTypeUserSend, Address: fuserUser().Address, ToAddress: types.PlasmaContract,
